@@ -28,6 +28,7 @@ import (
 	"sort"
 	"strings"
 	"sync"
+	"time"
 
 	a "github.com/google/wuffs/lang/ast"
 	t "github.com/google/wuffs/lang/token"
@@ -178,7 +179,7 @@ func withProbe(src string, before int) string {
 
 // ---- running one program
 
-const fuelPerHistory = 20000
+const fuelPerHistory = 4000
 
 func runProgram(fr *Front, g *Gen, idx int, origin, src string, corpusHists []string, nHist int) *ProgResult {
 	res := &ProgResult{Idx: idx, Origin: origin, Src: src, Stats: map[string]int{}}
@@ -323,6 +324,10 @@ func parseHistory(s string, byName map[string]*Func) ([]Call, bool) {
 	return h, len(h) > 0
 }
 
+var reSigned = regexp.MustCompile(`base\.i(8|16|32|64)\b`)
+
+func usesSignedTypes(src string) bool { return reSigned.MatchString(src) }
+
 func replayText(res *ProgResult, hi int) string {
 	var b strings.Builder
 	fmt.Fprintf(&b, "origin: %s (program #%d)\n", res.Origin, res.Idx)
@@ -339,7 +344,7 @@ func main() {
 		r.WriteGen("C01_Tables.lean", genTables())
 		return
 	}
-	nProg, nMut, nHist, batchSize := 160, 60, 8, 8
+	nProg, nMut, nHist, batchSize := 120, 40, 6, 8
 	if r.Thorough {
 		nProg, nMut, nHist, batchSize = 2600, 1200, 12, 12
 	}
@@ -349,14 +354,28 @@ func main() {
 	}
 	debug := os.Getenv("C01_DEBUG") != ""
 
-	// the regenerated std snapshot (base module) + wuffs-c from the working tree
-	var sb *hlib.StdBuild
-	var sbErr error
+	// wuffs-c from the working tree + the base module it generates; the std
+	// packages must still be accepted by the working tree's checker (in-process
+	// for the 24 packages without `use`; thorough: all of std via `wuffs gen`).
+	tStart := time.Now()
+	var tStd time.Duration
+	var tools *cTools
+	var toolsErr error
+	var stdRejected []string
 	var sbWG sync.WaitGroup
 	sbWG.Add(1)
 	go func() {
 		defer sbWG.Done()
-		sb, sbErr = hlib.GenStd(r.Repo)
+		tools, toolsErr = prepareC(r.Repo)
+		stdRejected = checkStd(r.Repo)
+		if r.Thorough {
+			if sb, err := hlib.GenStd(r.Repo); err != nil {
+				stdRejected = append(stdRejected, "wuffs gen (all of std): "+firstLine(err.Error()))
+			} else {
+				sb.Cleanup()
+			}
+		}
+		tStd = time.Since(tStart)
 	}()
 
 	// corpus first
@@ -446,6 +465,7 @@ func main() {
 	close(ch)
 	wg.Wait()
 
+	tGen := time.Since(tStart)
 	// ---- C phase
 	sbWG.Wait()
 	type cOutcome struct {
@@ -453,10 +473,14 @@ func main() {
 		note string
 	}
 	cOut := make([]*cOutcome, len(jobs))
-	if sbErr != nil {
-		r.Fail("std-not-generated", "regenerating std/ with the working tree's tools failed (the std sources must stay accepted): "+firstLine(sbErr.Error()), sbErr.Error())
+	for _, sr := range stdRejected {
+		r.Fail("std-rejected", "a std package is no longer accepted by the working tree's checker: "+sr, sr)
+	}
+	r.Extra("std_packages_rejected", len(stdRejected))
+	if toolsErr != nil {
+		r.Fail("c-tools-not-built", "building wuffs-c / the base module from the working tree failed: "+firstLine(toolsErr.Error()), toolsErr.Error())
 	} else {
-		defer sb.Cleanup()
+		defer tools.cleanup()
 		dir, cleanup := hlib.NewScratchDir("c01")
 		defer cleanup()
 		var cands []*ProgResult
@@ -464,6 +488,12 @@ func main() {
 			if res != nil && res.Accepted && len(res.Hists) > 0 && len(res.Fields) > 0 {
 				cands = append(cands, res)
 			}
+		}
+		if bs := (len(cands) + nw - 1) / nw; bs < batchSize {
+			batchSize = bs // keep every core busy
+		}
+		if batchSize < 3 {
+			batchSize = 3
 		}
 		var batches [][]*ProgResult
 		for i := 0; i < len(cands); i += batchSize {
@@ -485,12 +515,14 @@ func main() {
 				var cps []*CProg
 				for _, res := range batch {
 					skip := make([]bool, len(res.Hists))
+					solo := make([]bool, len(res.Hists))
 					for hi := range res.Hists {
 						skip[hi] = res.Dropped[hi] != ""
+						solo[hi] = res.IFail[hi] != nil
 					}
-					cps = append(cps, &CProg{Pkg: fmt.Sprintf("p%d", res.Idx), Src: res.Src, Fields: res.Fields, Hists: res.Hists, Skip: skip})
+					cps = append(cps, &CProg{Pkg: fmt.Sprintf("p%d", res.Idx), Src: res.Src, Fields: res.Fields, Hists: res.Hists, Skip: skip, Solo: solo})
 				}
-				exe, idx, bad, err := buildBatch(sb.Snapshot, filepath.Join(sb.BinDir, "wuffs-c"), dir, fmt.Sprintf("b%d", bi), cps)
+				exe, idx, bad, err := buildBatch(tools.baseC, tools.baseO, tools.wuffsC, dir, fmt.Sprintf("b%d", bi), cps)
 				for i, res := range batch {
 					o := &cOutcome{}
 					if why, isBad := bad[cps[i].Pkg]; isBad {
@@ -498,7 +530,7 @@ func main() {
 					} else if err != nil {
 						o.note = "batch: " + err.Error()
 					} else {
-						o.res = runProg(exe, idx[cps[i].Pkg], len(res.Hists))
+						o.res = runProg(exe, idx[cps[i].Pkg], len(res.Hists), cps[i].Skip, cps[i].Solo)
 					}
 					mu.Lock()
 					cOut[res.Idx] = o
@@ -579,7 +611,13 @@ func main() {
 					continue
 				}
 				if strings.Join(c.Lines, "\n") != strings.Join(res.Expected[hi], "\n") {
-					fail("sem-mismatch:c-vs-interpreter", fmt.Sprintf("generated C and the reference interpreter disagree: C=%q interpreter=%q", strings.Join(c.Lines, " | "), strings.Join(res.Expected[hi], " | ")), replayText(res, hi))
+					key := "sem-mismatch:c-vs-interpreter"
+					if usesSignedTypes(res.Src) {
+						// cgen writes non-negative constants with a `u` suffix, also next to
+						// signed operands: a known cgen defect (C04's subject), kept apart.
+						key = "sem-mismatch:program-with-signed-types"
+					}
+					fail(key, fmt.Sprintf("generated C and the reference interpreter disagree: C=%q interpreter=%q", strings.Join(c.Lines, " | "), strings.Join(res.Expected[hi], " | ")), replayText(res, hi))
 					continue
 				}
 				r.Count("history:c-agrees")
@@ -596,6 +634,18 @@ func main() {
 			r.Sample(res.Src)
 		}
 	}
+	nPanic := 0
+	PanicSources.Range(func(k, v interface{}) bool {
+		nPanic++
+		if nPanic == 1 {
+			r.Note("the front end PANICKED (" + v.(string) + ") on a candidate program; that is property C11's subject, counted here only. First source:\n" + k.(string))
+		}
+		return true
+	})
+	r.Extra("front_end_panics", nPanic)
+	r.Extra("seconds_genstd", tStd.Seconds())
+	r.Extra("seconds_generate_and_interpret", tGen.Seconds())
+	r.Extra("seconds_total", time.Since(tStart).Seconds())
 	r.Extra("programs", len(jobs))
 	r.Extra("corpus_programs", nCorpus)
 	r.Extra("histories_per_program", nHist)
